@@ -96,7 +96,7 @@ def cases_of(job, res, ref, srcs):
         if name is None or not ref.get(name, {}).get("ok"):
             continue
         out.append({"name": name, "rows": [G.machine_row(r) for r in rows], "temps": G.temps_of(rows),
-                    "expected": ref[name]["expected"], "source": srcs[name], "start": ""})
+                    "expected": ref[name]["expected"], "source": srcs[name], "start": "", "check": "out", "flows": [], "param_sources": []})
     return out
 
 
